@@ -43,11 +43,39 @@ func main() {
 			usage()
 		}
 	}
+	repo, _ = filepath.Abs(repo)
+	if id == "all" {
+		// matrix mode (used by tools/seedmatrix.sh): one load, every property, quiet
+		prog, err := core.Load(repo, "", "")
+		if err != nil {
+			fmt.Printf("LOAD-ERROR %v\n", err)
+			os.Exit(1)
+		}
+		var ids []string
+		for k := range props.Registry {
+			ids = append(ids, k)
+		}
+		sort.Strings(ids)
+		for _, k := range ids {
+			func() {
+				ctx := core.NewCtx(prog, k, tier, verif)
+				ctx.Quiet = true
+				defer func() {
+					if r := recover(); r != nil {
+						fmt.Printf("PROP %s 1 checker-panic %v\n", k, r)
+					}
+				}()
+				props.Registry[k](ctx)
+				rc := ctx.Finish()
+				fmt.Printf("PROP %s %d\n", k, rc)
+			}()
+		}
+		os.Exit(0)
+	}
 	fn, ok := props.Registry[id]
 	if !ok || (tier != "quick" && tier != "thorough") {
 		usage()
 	}
-	repo, _ = filepath.Abs(repo)
 	os.Exit(run(id, tier, repo, verif, quiet, fn))
 }
 
